@@ -82,6 +82,10 @@ func init() {
 			}
 			return mkBV(64, 0)
 		},
+		"verifPeekBool":   func(in *Interp, fn *ssa.Function, a []Value) Value { return Tuple{mkBool(false), mkBool(false)} },
+		"verifPeekString": func(in *Interp, fn *ssa.Function, a []Value) Value { return mkStr("") },
+		"jsonBlobAs":      pJSONBlobAs,
+		"guardOff":        func(in *Interp, fn *ssa.Function, a []Value) Value { in.guardsOff = true; return nil },
 		"noteTrace":    func(in *Interp, fn *ssa.Function, a []Value) Value { in.trace = append(in.trace, tagOf(a[0])); return nil },
 	}
 }
@@ -815,4 +819,15 @@ func (in *Interp) classifyAndRecord(label string, neg Term, model map[string]str
 		model = sm
 	}
 	in.recordViolation(label, model, note)
+}
+
+// jsonBlobAs(b, out *T) bool: open a JSON blob with the model's decoding rules.
+func pJSONBlobAs(in *Interp, fn *ssa.Function, a []Value) Value {
+	s := a[0].(Slice)
+	if s.Seq == nil || s.Seq.Blob == nil || s.Seq.Blob.Kind != "JSON" {
+		return mkBool(false)
+	}
+	pt := fn.Params[1].Type().(*types.Pointer)
+	err := in.jsonUnmarshal(s, Iface{T: pt, V: a[1]})
+	return mkBool(isNilValue(err))
 }
